@@ -292,15 +292,18 @@ for _p in UNITS["U6"]["parts"]:
         _p9.append(("file", "spec/pfedns.rs"))
         _p9.append(("file", "spec/pfmut_q.rs"))
         _p9.append(("file", "spec/walk.rs"))
+        _p9.append(("file", "spec/pfmut_f.rs"))
     if _p[0] == "struct" and _p[2] == "ParsedPacket":
         pass
-_p9 += [("impl", "compress.rs", "Compress", ["check_compressed_name"], "external"), ("struct", "synth/gen.rs", "RR", ["pubfields"]), ("impl", "dns_sector.rs", "DNSSector", ["set_qdcount", "set_ancount", "set_nscount", "set_arcount"]),
+_p9 += [("impl", "compress.rs", "Compress", ["check_compressed_name"], "external"),
+        # header setters: verified in U3, used by contract in the client that composes them with the object invariant
+        ("impl", "parsed_packet.rs", "ParsedPacket", ["set_tid", "set_flags", "set_rcode", "set_opcode", "set_response"], "external"), ("struct", "synth/gen.rs", "RR", ["pubfields"]), ("impl", "dns_sector.rs", "DNSSector", ["set_qdcount", "set_ancount", "set_nscount", "set_arcount"]),
         ("impl", "parsed_packet.rs", "ParsedPacket", ["into_packet", "rrcount_inc", "rrcount_dec", "insertion_offset", "recompute", "insert_rr"])]
 _p9.append(("file", "spec/clients_u9.rs"))
 # the packet-level functions must come before the traits that call them: order is irrelevant in Rust, so this is fine
 UNITS["U9"] = {
     "title": "mutating operations (C08, C09, C10, C11)",
     "flags": ["--no-lifetime"], "rlimit": 100,
-    "contracts": UNITS["U6"]["contracts"] + ["contracts/U3.contract:dns_sector.rs::DNSSector::set_(qdcount|ancount|nscount|arcount)$", "contracts/U1.contract:compress.rs::Compress::check_compressed_name$", "contracts/U9.contract", "contracts/U9t.contract"],
+    "contracts": UNITS["U6"]["contracts"] + ["contracts/U3.contract:dns_sector.rs::DNSSector::set_(qdcount|ancount|nscount|arcount)$", "contracts/U1.contract:compress.rs::Compress::check_compressed_name$", "contracts/U3.contract:parsed_packet.rs::ParsedPacket::set_(tid|flags|rcode|opcode|response)$", "contracts/U9.contract", "contracts/U9t.contract"],
     "parts": _p9,
 }
